@@ -8,6 +8,7 @@ import itertools
 import json
 import os
 import shutil
+import struct
 
 import core
 import emu
@@ -87,6 +88,9 @@ class TM:
 
 SYMS = [(op, t, b, s) for op in "xpre" for (t, b) in (("A", 1), ("A", 2), ("B", 1), ("C", 1), ("C", 2)) for s in (0, 1)]
 TID = {"A": 10, "B": 20, "C": 30}
+# task ids of A, B, C per flag combination (rotating): small, around a power of ten,
+# the largest 32-bit values
+TASK_IDS = [(10, 20, 30), (99999, 100000, 4294967295), (31415926, 7, 1000000000)]
 
 
 def replay(flags, seq):
@@ -189,7 +193,8 @@ def part_a(chk, asan, quick):
                 lines.append(ll)
         text = "".join(fmt_line(flags, seq) for (seq, ok, m) in lines if seq)
         lines = [l for l in lines if l[0]]
-        r = core.run_retry([exe], stdin=text.encode(), timeout=300)
+        ids = TASK_IDS[(flags["A"] + flags["C"]) % len(TASK_IDS)]
+        r = core.run_retry([exe], stdin=text.encode(), timeout=300, env={"TASK_IDS": "%d,%d,%d" % ids})
         return flags, lines, r
 
     nseq = 0
@@ -223,7 +228,8 @@ def part_a(chk, asan, quick):
                 # what runs on each stack
                 for s in (0, 1):
                     top = m.running_top(s)
-                    want = "%d:%d" % ((TID[top[0]], top[1]) if top else (0, 0))
+                    ids = TASK_IDS[(flags["A"] + flags["C"]) % len(TASK_IDS)]
+                    want = "%d:%d" % ((ids["ABC".index(top[0])], top[1]) if top else (0, 0))
                     if tails[s] != want:
                         chk.report("task-module:running-body", "stack %d runs %s, machine says %s" % (s, tails[s], want),
                                    {"flags": flags, "seq": [fmt_sym(sy) for sy in seq]})
@@ -286,9 +292,22 @@ def e2e_prologue(mc, variant=0):
     return h
 
 
+E2E_IDS = [(1, 2, 3), (99999, 100000, 4294967295)]
+
+
 def build_hist(mc, word):
     evs = e2e_prologue(mc, label_variant(word)) + [(KEYS[ti], mcv, pl, False) for (ti, mcv, pl) in word] + \
           [(KEYS[0], "OHe", b"", False), (KEYS[1], "OHe", b"", False)]
+    # the three task ids of a case are small numbers or (every other case) large ones
+    ids = E2E_IDS[(label_variant(word) + len(word)) % 2]
+    if ids != E2E_IDS[0]:
+        def remap(k, mcv, pl, j):
+            if len(mcv) == 3 and mcv[0] == mc and mcv[1] == "T" and len(pl) >= 4:
+                t = struct.unpack_from("<I", pl)[0]
+                if 1 <= t <= 3:
+                    pl = struct.pack("<I", ids[t - 1]) + pl[4:]
+            return (k, mcv, pl, j)
+        evs = [remap(*e) for e in evs]
     return [(5000 + 3 * i, k, m, p, j) for i, (k, m, p, j) in enumerate(evs)]
 
 
